@@ -611,3 +611,69 @@ Definition g_spec_violations (rs : list route) (cs : list gcase) : list Z :=
 (* every modelled route answers 2xx on success *)
 Definition routes_succeed_2xx (rs : list route) : bool :=
   forallb (fun r => (200 <=? rt_status r)%Z && (rt_status r <? 300)%Z) rs.
+
+(* ------------------------------------------------------------------------------------------ *)
+(** * 6. Expressions that can panic on the handler goroutine (outside the parser goroutines' tamePanic) *)
+
+(* why an index / slice / single-value type assertion that runs on the HTTP handler goroutine cannot panic *)
+Inductive site_cover :=
+| SGeneric      (* instantiation of a generic function or type: not an index operation *)
+| SMap          (* lookup in / assignment to a map made by make or a literal *)
+| SGuarded      (* target[:firstSlash] under firstSlash != -1, firstSlash = strings.Index(target, "/") *)
+| SCtxTyped     (* a context value stored with exactly this type by a middleware that runs before: DSN / META / TTL_DAYS by
+                   WithOverallContextMiddleware (cfg.ExtraMiddleware), "node" and the services by withTSAndSampleService /
+                   withTracesService = the first PreRequest of every route (first_pre_is_service); ddsource/target/id strings *)
+| SEmptySlice.  (* x[:0] *)
+
+Definition site_allow_list : list (string * string * string * string * site_cover) := [
+  ("controller/builder.go", "ErrorHandler", "index", "customErrors.Unwrap[*customErrors.UnMarshalError]", SGeneric);
+  ("controller/builder.go", "ErrorHandler", "index", "customErrors.Unwrap[customErrors.IQrynError]", SGeneric);
+  ("controller/builder.go", "PusherCtx.DoParse", "index", "pusherCtx.Parser[""*""]", SMap);
+  ("controller/builder.go", "getService", "assert", "svc.(service.IInsertServiceV2)", SCtxTyped);
+  ("controller/builder.go", "doPush", "index", "promise.New[uint32]", SGeneric);
+  ("controller/builder.go", "doPush", "index", "promise.Fulfilled[uint32]", SGeneric);
+  ("controller/builder.go", "doParse", "assert", "r.Context().Value(""node"").(string)", SCtxTyped);
+  ("controller/builder.go", "doParse", "index", "promise.Promise[uint32]", SGeneric);
+  ("controller/elasticController.go", "TargetDocV2", "index", "params[""target""]", SMap);
+  ("controller/elasticController.go", "TargetDocV2", "index", "params[""id""]", SMap);
+  ("controller/elasticController.go", "TargetDocV2", "slice", "target[:firstSlash]", SGuarded);
+  ("controller/elasticController.go", "TargetBulkV2", "index", "params[""target""]", SMap);
+  ("controller/elasticController.go", "getRequestParams", "index", "params[key]", SMap);
+  ("controller/middleware.go", "withSimpleParser", "index", "ctx.Parser[contentType]", SMap);
+  ("controller/middleware.go", "withComplexParser", "index", "pusherCtx.Parser[""*""]", SMap);
+  ("controller/middleware.go", "withComplexParser", "index", "ctx.Parser[contentType]", SMap);
+  ("controller/middleware.go", "withTSAndSampleService", "assert", "dsn.(string)", SCtxTyped);
+  ("controller/middleware.go", "withTracesService", "assert", "dsn.(string)", SCtxTyped);
+  ("utils/unmarshal/builder.go", "parserDoer.doParseLogs", "assert", "_meta.(string)", SCtxTyped);
+  ("utils/unmarshal/builder.go", "parserDoer.doParseLogs", "assert", "ttlDays.(uint16)", SCtxTyped);
+  ("utils/unmarshal/builder.go", "Build", "index", "numbercache.ICache[uint64]", SGeneric);
+  ("utils/unmarshal/builder.go", "<PreParse closure>", "index", "ctx.ctxMap[key]", SMap);
+  ("utils/unmarshal/builder.go", "<PreParse closure>", "assert", "res.(string)", SCtxTyped);
+  ("utils/unmarshal/zipkinJsonUnmarshal.go", "zipkinDecoderV2.reset", "slice", "z.key[:0]", SEmptySlice);
+  ("utils/unmarshal/zipkinJsonUnmarshal.go", "zipkinDecoderV2.reset", "slice", "z.val[:0]", SEmptySlice)
+].
+
+Definition site_allowed (s : string * string * string * string) : bool :=
+  let '(f, fn, k, e) := s in
+  existsb (fun a => let '(f', fn', k', e', _) := a in
+    String.eqb f f' && String.eqb fn fn' && String.eqb k k' && String.eqb e e') site_allow_list.
+Definition sites_ok (ss : list (string * string * string * string)) : bool := forallb site_allowed ss.
+Definition unaccounted_sites (ss : list (string * string * string * string)) : list (string * string * string * string) :=
+  filter (fun s => negb (site_allowed s)) ss.
+
+(* the functions of package unmarshal that may run on the handler goroutine: setters, resets, constructors *)
+Definition handler_side_functions_model : list string := [
+  "Build"; "ElasticUnmarshal.SetOnEntries"; "NewDecompressor"; "OTLPDecoder.SetOnEntry"; "datadogCFRequestDec.SetOnEntries";
+  "datadogMetricsRequestDec.SetOnEntries"; "datadogRequestDec.SetOnEntries"; "elasticBulkDec.SetOnEntries"; "influxDec.SetOnEntries";
+  "logsProtoDec.SetOnEntries"; "newTimeSeriesAndSamples"; "otlpLogDec.SetOnEntries"; "pProfProtoDec.SetOnProfile"; "parserDoer.Do";
+  "parserDoer.doParseLogs"; "parserDoer.doParseProfile"; "parserDoer.doParseSpans"; "parserDoer.resetProfile"; "parserDoer.resetSpans";
+  "promMetricsProtoDec.SetOnEntries"; "pushRequestDec.SetOnEntries"; "timeSeriesAndSamples.reset"; "zipkinDecoderV2.SetOnEntry";
+  "zipkinDecoderV2.reset"].
+Definition strs_subset (a b : list string) : bool := forallb (fun x => existsb (String.eqb x) b) a.
+
+(* every route looks its services (and "node") up before anything else of its own *)
+Definition first_pre_is_service (r : route) : bool :=
+  match rt_pre r with
+  | p :: _ => String.eqb p "withTSAndSampleService" || String.eqb p "withTracesService"
+  | [] => false
+  end.
